@@ -259,6 +259,7 @@ def _setup_env(root=None):
         return _ENV
     _ENV.clear()
     own_root = root is None
+    saved_tempdir = tempfile.tempdir
     if own_root:
         root = tempfile.mkdtemp(prefix='c16_leaks_')
     base = os.path.join(root, 'p%d' % os.getpid())
@@ -274,7 +275,7 @@ def _setup_env(root=None):
                 saved_env={k: os.environ.get(k) for k in
                            ('HOME', 'PATH', 'TMPDIR', 'FAKEGIT_ON',
                             'FAKEGIT_MODE', 'FAKEGIT_TEXT')},
-                saved_tempdir=tempfile.tempdir, n=0)
+                saved_tempdir=saved_tempdir, n=0)
     os.environ['PATH'] = os.path.join(base, 'bin') + os.pathsep + \
         os.environ.get('PATH', '/usr/bin:/bin')
     os.environ['HOME'] = os.path.join(base, 'home')
@@ -1071,7 +1072,8 @@ def run(tier: str = 'quick', seed: int = 0, jobs: int = 16) -> dict:
         'scope': ('%s tier: part A %d cases = %d passwords x %s x %d command '
                   'shapes (github URL, + bitbucket URL for %s) x faults %s%s;'
                   ' part B %d cases = passwords x levels x (password flow %s '
-                  'x scripts %s; app flow %s x scripts %s)' % (
+                  'x scripts %s; app flow %s x scripts %s; in the quick tier only the '
+                  'first flow of each kind gets every script)' % (
                       tier, n_a,
                       len(PASSWORDS_THOROUGH if tier == 'thorough'
                           else PASSWORDS_QUICK), list(LEVELS),
